@@ -36,6 +36,7 @@ static atomic_uint g_ncb, g_started, g_fence, g_done_flag, g_stopped;
 static int g_in_start, g_rearm_cnt, g_destroyed;
 static atomic_uint g_cb_after_stop, g_ntimeout, g_paused, g_cb_while_paused;
 static int g_paused_in_start;
+static int g_task_fd = -1;
 
 static uint64_t
 now_us(void) {
@@ -45,6 +46,15 @@ now_us(void) {
 }
 
 uint8_t c16_pattern(uint64_t i) { return ((uint8_t)(1 + ((i * 7 + i / 251) % 250))); }
+
+static void
+note_ident_after_destroy(void) {
+	if (g_task_fd >= 0 && g_task_fd != g_sp[0]) {
+		if (-1 != fcntl(g_task_fd, F_GETFD))
+			g_out->ident_open_after_destroy = 1;
+		g_task_fd = -1; /* closed by the library (or reported) */
+	}
+}
 
 static void
 mark_stopped(void) {
@@ -95,6 +105,7 @@ task_cb(tp_task_p tptask, int error, io_buf_p buf, uint32_t eof, size_t transfer
 		case 2:
 			tp_task_destroy(tptask);
 			g_destroyed = 1;
+			note_ident_after_destroy();
 			mark_stopped();
 			ret = TP_TASK_CB_NONE;
 			break;
@@ -168,13 +179,14 @@ start_cb(tpt_p tpt, void *udata) {
 
 	(void)udata;
 	if (1 == s->handler) {
-		rc = tp_task_notify_create(tpt, (uintptr_t)g_sp[0], 0, ev, s->timeout_ms, notify_cb, NULL, &g_task);
+		rc = tp_task_notify_create(tpt, (uintptr_t)g_task_fd, 0, ev, s->timeout_ms, notify_cb, NULL, &g_task);
 		g_out->start_rc = rc;
 		atomic_store(&g_started, 1);
 		return;
 	}
-	rc = tp_task_create(tpt, (uintptr_t)g_sp[0], tp_task_sr_handler,
-	    (s->after_every_read ? TP_TASK_F_CB_AFTER_EVERY_READ : 0), NULL, &g_task);
+	rc = tp_task_create(tpt, (uintptr_t)g_task_fd, tp_task_sr_handler,
+	    (s->after_every_read ? TP_TASK_F_CB_AFTER_EVERY_READ : 0) |
+	    ((g_task_fd != g_sp[0]) ? TP_TASK_F_CLOSE_ON_DESTROY : 0), NULL, &g_task);
 	if (0 == rc) {
 		g_in_start = 1;
 		rc = tp_task_start_ex((s->start_ex_direct ? 0 : 1), g_task, ev, fl, s->timeout_ms, 0, &g_iob, task_cb);
@@ -215,6 +227,7 @@ final_cb(tpt_p tpt, void *udata) {
 	if (NULL != g_task && !g_destroyed) {
 		tp_task_destroy(g_task);
 		g_destroyed = 1;
+		note_ident_after_destroy();
 	}
 	mark_stopped();
 	atomic_store(&g_done_flag, 1);
@@ -279,6 +292,14 @@ c16_run(const c16_scn *scn, c16_out *out) {
 	if (0 != socketpair(AF_UNIX, SOCK_STREAM | SOCK_NONBLOCK, 0, g_sp)) {
 		out->setup_rc = errno;
 		return;
+	}
+	g_task_fd = g_sp[0];
+	if (scn->close_on_destroy && 0 == scn->handler) {
+		g_task_fd = dup(g_sp[0]);
+		if (-1 == g_task_fd) {
+			out->setup_rc = errno;
+			return;
+		}
 	}
 	if (0 != scn->sndbuf) {
 		int v = (int)scn->sndbuf;
@@ -419,6 +440,8 @@ c16_run(const c16_scn *scn, c16_out *out) {
 	tp_shutdown(g_tp);
 	tp_shutdown_wait(g_tp);
 	tp_destroy(g_tp);
+	if (g_task_fd >= 0 && g_task_fd != g_sp[0]) close(g_task_fd); /* the task was never created/destroyed */
+	g_task_fd = -1;
 	if (g_sp[0] >= 0) close(g_sp[0]);
 	if (g_sp[1] >= 0) close(g_sp[1]);
 	tp_res_get(&out->res);
